@@ -108,6 +108,8 @@ def kernel_fn(name):
         return lambda a, b: a @ b.T + 1
     if name == "dot":
         return lambda a, b: a @ b.T
+    if name == "asym":  # not symmetric in its arguments: k(a, b) = a.b + 2 sum(a) - sum(b)
+        return lambda a, b: a @ b.T + 2 * a.sum(-1)[:, None] - b.sum(-1)[None, :]
     raise ValueError(name)
 
 
@@ -167,7 +169,12 @@ def build(ir):
     if k == "diag":
         return ops.Diagonal(dec(ir["d"]))
     if k == "tridiag":
-        return ops.Tridiagonal(dec(ir["al"]), dec(ir["be"]), dec(ir["ga"]))
+        al = dec(ir["al"])
+        # 'same_band': the caller hands the very same array object for the sub- and the super-diagonal
+        return ops.Tridiagonal(al, dec(ir["be"]), al if ir.get("same_band") else dec(ir["ga"]))
+    if k == "viewpair":  # block diagonal of two Dense operators wrapping two views of ONE buffer (B and B^T)
+        B = dec(ir["a"])
+        return ops.BlockDiag(ops.Dense(B), ops.Dense(B.T))
     if k == "perm":
         dt = ir.get("dt")
         return ops.Permutation(np.array(ir["p"], dtype=np.int64), dtype=None if dt is None else DT[dt])
@@ -347,6 +354,9 @@ def denote(ir):
         for i, pi in enumerate(p):
             M[i, pi] = 1
         return Ref(M)
+    if k == "viewpair":
+        B = dec(ir["a"])
+        return Ref(_blockdiag([B, B.T.copy()], B.dtype), _blockdiag([np.abs(B), np.abs(B.T)], np.float64))
     if k == "hh":
         v = dec(ir["v"])
         beta = hh_beta(ir)
